@@ -24,6 +24,11 @@
 // form differs from its serialized form, and the data CallStep returns must be reflect.DeepEqual to
 // what an independent copy of the output scope's Serialize gives for the handler's value.
 //
+// The steps in shortSteps (StepsMC: ShortSteps) have an input object and a signal data object with
+// EXACTLY ONE property, in one of several shapes (struct-mapped / map-based, scalar / nested
+// single-property object) chosen per session: a bare value that is not a map ("vs") is shorthand for
+// the object.  The unserialized value is again bound by an independent copy of the scope.
+//
 // For every session the property's own invariants are evaluated directly on the real
 // observations (judge); under replay the per-goroutine event sequences, ledger, outcomes and
 // initializer counts are also compared with the specification's (differences the property
@@ -92,6 +97,7 @@ type caseT struct {
 	Racy     bool                      `json:"racy"`
 	NoInit   []string                  `json:"noinit"`
 	MapSteps []string                  `json:"mapsteps"`
+	Shorts   []string                  `json:"shortsteps"`
 	Variants []int                     `json:"variants"`
 	Seed     int64                     `json:"seed"`
 	Sessions int                       `json:"sessions"`
@@ -135,7 +141,10 @@ var noInit = map[string]bool{"s0": true}
 var mapSteps = map[string]bool{"s2": true}
 
 // the accepted raw input classes (Steps.tla: ValidInputs); vd and vl exist for map-based scopes only
-var validIn = map[string]bool{"va": true, "vb": true, "vd": true, "vl": true}
+var validIn = map[string]bool{"va": true, "vb": true, "vd": true, "vl": true, "vs": true}
+
+// s0 has single-property input and signal data objects (shape chosen per session).  StepsMC: ShortSteps.
+var shortSteps = map[string]bool{"s0": true}
 var structClasses = []string{"va", "vb"}
 var mapClasses = []string{"va", "vb", "vd", "vl"}
 
@@ -184,8 +193,8 @@ func outputs() map[string]*schema.StepOutputSchema {
 	}
 }
 
-var names = map[string]string{"va": "alpha", "vb": "bravo", "vd": "delta", "vl": "lima"}
-var natives = map[string]string{"va": "nva", "vb": "nvb", "vd": "nvd", "vl": "nvl"}
+var names = map[string]string{"va": "alpha", "vb": "bravo", "vd": "delta", "vl": "lima", "vs": "sierra"}
+var natives = map[string]string{"va": "nva", "vb": "nvb", "vd": "nvd", "vl": "nvl", "vs": "nvs"}
 
 // rawInput concretises an abstract raw input class; variant selects one of several concrete forms.
 func rawInput(field, class string, variant int) any {
@@ -571,6 +580,220 @@ func mapArgClass(field, class string, variant int, got map[string]any) (cls, wan
 	return "other", fmt.Sprintf("%#v", want)
 }
 
+// ---------------------------------------------------------------------------- single-property scopes
+
+type shortStr struct {
+	Name string `json:"name"`
+}
+type innerT struct {
+	Count int64 `json:"count"`
+}
+type outerT struct {
+	Inner innerT `json:"inner"`
+}
+
+func reqProp(t schema.Type) *schema.PropertySchema {
+	return schema.NewPropertySchema(t, nil, true, nil, nil, nil, nil, nil)
+}
+
+var shortShapes = []string{"struct-string", "map-int", "struct-nested", "map-nested"}
+
+// shortScope builds a fresh scope whose root object has exactly one property.
+func shortScope(shape, id string) *schema.ScopeSchema {
+	count := func() map[string]*schema.PropertySchema {
+		return map[string]*schema.PropertySchema{"count": reqProp(schema.NewIntSchema(schema.IntPointer(0), nil, nil))}
+	}
+	switch shape {
+	case "struct-string":
+		return schema.NewScopeSchema(schema.NewStructMappedObjectSchema[shortStr](id,
+			map[string]*schema.PropertySchema{"name": strProp(2, true)}))
+	case "map-int":
+		return schema.NewScopeSchema(schema.NewObjectSchema(id, count()))
+	case "struct-nested":
+		return schema.NewScopeSchema(schema.NewStructMappedObjectSchema[outerT](id, map[string]*schema.PropertySchema{
+			"inner": reqProp(schema.NewStructMappedObjectSchema[innerT](id+"inner", count()))}))
+	default: // map-nested
+		return schema.NewScopeSchema(schema.NewObjectSchema(id, map[string]*schema.PropertySchema{
+			"inner": reqProp(schema.NewObjectSchema(id+"inner", count()))}))
+	}
+}
+
+func shortScopeID(kind string) string {
+	if kind == "signal" {
+		return "sigdata"
+	}
+	return "input"
+}
+
+// shortForm is one concrete raw input of a single-property scope of the given shape; norm is the
+// unserialized value the specification's reading gives (checked against an independent Unserialize in
+// bindCheck), nil = the schema rejects the input.  n is the class's name (used by the string shape).
+type shortForm struct {
+	shape, name string
+	raw         func(n string) any
+	norm        func(n string) any
+}
+
+func nestS(c int64) any { return outerT{Inner: innerT{Count: c}} }
+func nestM(c int64) any { return msa{"inner": msa{"count": c}} }
+
+var shortForms = map[string][]shortForm{
+	// the map spelling
+	"v": {
+		{"struct-string", "map", func(n string) any { return msa{"name": n} }, func(n string) any { return shortStr{Name: n} }},
+		{"struct-string", "anymap", func(n string) any { return maa{"name": n} }, func(n string) any { return shortStr{Name: n} }},
+		{"map-int", "map", func(n string) any { return msa{"count": int64(4)} }, func(n string) any { return msa{"count": int64(4)} }},
+		{"map-int", "anymap-lenient", func(n string) any { return maa{"count": "4"} }, func(n string) any { return msa{"count": int64(4)} }},
+		{"struct-nested", "map", func(n string) any { return msa{"inner": msa{"count": int64(5)}} }, func(n string) any { return nestS(5) }},
+		{"struct-nested", "map-inner-shorthand", func(n string) any { return msa{"inner": 6} }, func(n string) any { return nestS(6) }},
+		{"map-nested", "map", func(n string) any { return msa{"inner": msa{"count": int64(5)}} }, func(n string) any { return nestM(5) }},
+		{"map-nested", "anymap", func(n string) any { return maa{"inner": maa{"count": uint64(7)}} }, func(n string) any { return nestM(7) }},
+	},
+	// the shorthand: a bare value that is not a map
+	"vs": {
+		{"struct-string", "bare-string", func(n string) any { return n }, func(n string) any { return shortStr{Name: n} }},
+		{"struct-string", "bare-int", func(n string) any { return 42 }, func(n string) any { return shortStr{Name: "42"} }},
+		{"map-int", "bare-int", func(n string) any { return 3 }, func(n string) any { return msa{"count": int64(3)} }},
+		{"map-int", "bare-int64", func(n string) any { return int64(0) }, func(n string) any { return msa{"count": int64(0)} }},
+		{"map-int", "bare-numeral", func(n string) any { return "7" }, func(n string) any { return msa{"count": int64(7)} }},
+		{"struct-nested", "bare-int", func(n string) any { return 5 }, func(n string) any { return nestS(5) }},
+		{"struct-nested", "bare-uint64", func(n string) any { return uint64(9) }, func(n string) any { return nestS(9) }},
+		{"map-nested", "bare-int", func(n string) any { return 5 }, func(n string) any { return nestM(5) }},
+		{"map-nested", "bare-numeral", func(n string) any { return "8" }, func(n string) any { return nestM(8) }},
+	},
+	// rejected: maps and bare values alike
+	"inv": {
+		{"struct-string", "bare-too-short", func(n string) any { return "x" }, nil},
+		{"struct-string", "bare-nil", func(n string) any { return nil }, nil},
+		{"struct-string", "bare-list", func(n string) any { return []any{"alpha"} }, nil},
+		{"struct-string", "map-too-short", func(n string) any { return msa{"name": "x"} }, nil},
+		{"struct-string", "map-empty", func(n string) any { return msa{} }, nil},
+		{"struct-string", "map-undeclared-key", func(n string) any { return msa{"name": "alpha", "bogus": 1} }, nil},
+		{"struct-string", "typed-value", func(n string) any { return shortStr{Name: "alpha"} }, nil},
+		{"map-int", "bare-below-minimum", func(n string) any { return -1 }, nil},
+		{"map-int", "bare-not-a-number", func(n string) any { return "x" }, nil},
+		{"map-int", "bare-fraction", func(n string) any { return 2.5 }, nil},
+		{"map-int", "bare-nil", func(n string) any { return nil }, nil},
+		{"map-int", "map-below-minimum", func(n string) any { return msa{"count": int64(-1)} }, nil},
+		{"map-int", "map-empty", func(n string) any { return msa{} }, nil},
+		{"struct-nested", "bare-below-minimum", func(n string) any { return -1 }, nil},
+		{"struct-nested", "bare-not-a-number", func(n string) any { return "x" }, nil},
+		{"struct-nested", "inner-spelling-at-outer-level", func(n string) any { return msa{"count": int64(6)} }, nil},
+		{"struct-nested", "map-inner-below-minimum", func(n string) any { return msa{"inner": -2} }, nil},
+		{"map-nested", "bare-below-minimum", func(n string) any { return int64(-1) }, nil},
+		{"map-nested", "bare-nil", func(n string) any { return nil }, nil},
+		{"map-nested", "inner-spelling-at-outer-level", func(n string) any { return msa{"count": int64(6)} }, nil},
+		{"map-nested", "map-inner-not-a-number", func(n string) any { return msa{"inner": msa{"count": "x"}} }, nil},
+	},
+}
+
+func shortClass(class string) string {
+	switch {
+	case class == "va" || class == "vb":
+		return "v"
+	case class == "vs":
+		return "vs"
+	}
+	return "inv"
+}
+
+func abs(v int) int {
+	if v < 0 {
+		return -v
+	}
+	return v
+}
+
+// shortPick selects a form of the class: among all shapes (shape == "": the form decides the session's
+// shape) or among the forms of the given shape.
+func shortPick(class, shape string, variant int) *shortForm {
+	all := shortForms[shortClass(class)]
+	var cands []*shortForm
+	for i := range all {
+		if shape == "" || all[i].shape == shape {
+			cands = append(cands, &all[i])
+		}
+	}
+	return cands[abs(variant)%len(cands)]
+}
+
+// shortArgClass binds the abstract unserialized value for the single-property scopes.
+func shortArgClass(p *proc, got any) (cls, wantText string) {
+	if !validIn[p.call.Input] || p.short == nil {
+		return "other", "(input rejected by the schema)"
+	}
+	var want any
+	var err error
+	if pi := sup.Guard(func() {
+		want, err = shortScope(p.short.shape, shortScopeID(p.call.Kind)).Unserialize(p.short.raw(names[p.call.Input]))
+	}); pi != nil {
+		return "other", "reference Unserialize panicked: " + pi.Msg
+	}
+	if err != nil {
+		return "other", "reference Unserialize: " + err.Error()
+	}
+	if reflect.DeepEqual(got, want) {
+		return natives[p.call.Input], ""
+	}
+	return "other", fmt.Sprintf("%#v", want)
+}
+
+func bindCheckShort() {
+	for _, id := range []string{"input", "sigdata"} {
+		for _, cls := range []string{"va", "vb", "vs", "inv"} {
+			for i := range shortForms[shortClass(cls)] {
+				f := shortForms[shortClass(cls)][i]
+				where := fmt.Sprintf("single-property scope %s (%s), class %s form %s", f.shape, id, cls, f.name)
+				if !contains(shortShapes, f.shape) {
+					bindErr = where + ": unknown shape"
+					continue
+				}
+				sc := shortScope(f.shape, id)
+				if n := len(sc.RootObject().Properties()); n != 1 {
+					bindErr = fmt.Sprintf("%s: the root object has %d properties", where, n)
+				}
+				raw := f.raw(names[cls])
+				u, err := sc.Unserialize(raw)
+				if cls == "inv" {
+					if err == nil || f.norm != nil {
+						bindErr = fmt.Sprintf("%s is accepted by the schema (%#v) or has a normal form in the table", where, u)
+					}
+					continue
+				}
+				if f.norm == nil {
+					bindErr = where + " has no normal form in the table"
+					continue
+				}
+				norm := f.norm(names[cls])
+				if err != nil || !reflect.DeepEqual(u, norm) {
+					bindErr = fmt.Sprintf("%s: Unserialize gives %#v, %v; the table's normal form is %#v", where, u, err, norm)
+					continue
+				}
+				isMap := reflect.ValueOf(raw).Kind() == reflect.Map
+				if (cls == "vs") == isMap {
+					bindErr = where + ": the map spelling and the bare-value shorthand are mixed up"
+				}
+				p := &proc{call: callT{Kind: map[string]string{"input": "step", "sigdata": "signal"}[id], Input: cls}, short: &f}
+				if got, _ := shortArgClass(p, norm); got != natives[cls] {
+					bindErr = where + ": the reference does not recognise the normal form"
+				}
+				if got, _ := shortArgClass(p, raw); got != "other" && !reflect.DeepEqual(raw, norm) {
+					bindErr = where + ": the reference takes the raw input for the unserialized value"
+				}
+			}
+		}
+	}
+	for _, cl := range []string{"v", "vs", "inv"} {
+		seen := map[string]bool{}
+		for _, f := range shortForms[cl] {
+			seen[f.shape] = true
+		}
+		if len(seen) != len(shortShapes) {
+			bindErr = "single-property form table " + cl + " does not cover every shape"
+		}
+	}
+}
+
 // formTables gives the number of concrete raw-input forms per "<scope>/<class>" (the same for steps and signals)
 func formTables() map[string]int {
 	t := map[string]int{"struct/inv": nStructInv}
@@ -582,6 +805,9 @@ func formTables() map[string]int {
 	}
 	for _, b := range []string{"ok", "ok2", "okr", "undeclared", "baddata"} {
 		t["mapout/"+b] = len(outFormsOf(b))
+	}
+	for _, c := range []string{"va", "vb", "vs", "inv"} {
+		t["short/"+c] = len(shortForms[shortClass(c)])
 	}
 	return t
 }
@@ -689,8 +915,9 @@ type proc struct {
 	done    chan struct{}
 	begun   bool
 	rng     *rand.Rand
-	form    string // the concrete raw input form used (set by the call's goroutine before it returns)
-	oform   string // the concrete handler output form used (map-based step; set by the call's goroutine)
+	form    string     // the concrete raw input form used (set by the call's goroutine before it returns)
+	oform   string     // the concrete handler output form used (map-based step; set by the call's goroutine)
+	short   *shortForm // the concrete raw input form of a call on a single-property step
 }
 
 type procKey struct{}
@@ -705,6 +932,7 @@ type session struct {
 	arriv  chan *event // arrivals at gates and returns, replay mode
 	schema *schema.CallableSchema
 	anomal []string
+	shape  string // shape of the single-property scopes of this session
 }
 
 func goid() int64 {
@@ -728,6 +956,16 @@ func newSession(calls []callT, gated bool, seed int64, variant int, variants []i
 		s.procs = append(s.procs, &proc{id: i + 1, call: c, variant: v, gate: make(chan struct{}, 1),
 			done: make(chan struct{}), rng: rand.New(rand.NewSource(seed*7919 + int64(i)))})
 	}
+	// the first call on a single-property step decides the shape of this session's single-property scopes
+	for _, p := range s.procs {
+		if shortSteps[p.call.Step] {
+			p.short = shortPick(p.call.Input, s.shape, p.variant)
+			s.shape = p.short.shape
+		}
+	}
+	if s.shape == "" {
+		s.shape = shortShapes[abs(variant)%len(shortShapes)]
+	}
 	var steps []schema.CallableStep
 	for _, id := range stepIDs {
 		steps = append(steps, s.buildStep(id))
@@ -736,7 +974,32 @@ func newSession(calls []callT, gated bool, seed int64, variant int, variants []i
 	return s
 }
 
+// buildShort builds a step without initializer (step data type any) whose input and signal data objects have
+// exactly one property; T is the type the shape unserializes to.
+func buildShort[T any](s *session, id string) schema.CallableStep {
+	sig := schema.NewCallableSignal[any, T](sigID, shortScope(s.shape, "sigdata"), nil,
+		func(ctx context.Context, d any, in T) { s.shortHandler(ctx, "signal", id, d, any(in)) })
+	return schema.NewCallableStepWithSignals[any, T](id, shortScope(s.shape, "input"), outputs(),
+		map[string]schema.CallableSignal{sigID: sig}, nil, nil, nil,
+		func(ctx context.Context, d any, in T) (string, any) {
+			return s.shortHandler(ctx, "step", id, d, any(in))
+		})
+}
+
 func (s *session) buildStep(id string) schema.CallableStep {
+	if shortSteps[id] {
+		if !noInit[id] {
+			panic("single-property steps are built without initializer")
+		}
+		switch s.shape {
+		case "struct-string":
+			return buildShort[shortStr](s, id)
+		case "struct-nested":
+			return buildShort[outerT](s, id)
+		default:
+			return buildShort[map[string]any](s, id)
+		}
+	}
 	if mapSteps[id] {
 		sig := schema.NewCallableSignal[*sdata, map[string]any](sigID, mapSigScope(), nil,
 			func(ctx context.Context, d *sdata, in map[string]any) { s.mapSignalHandler(ctx, id, d, in) })
@@ -899,11 +1162,35 @@ func (s *session) mapSignalHandler(ctx context.Context, step string, d any, in m
 	s.record(&event{Ev: "hret", P: p.id})
 }
 
+// handler (step and signal) of the single-property steps: the argument is classified against the reference
+func (s *session) shortHandler(ctx context.Context, kind, step string, d any, in any) (string, any) {
+	p := s.procOf(ctx)
+	if p == nil {
+		s.anomaly(kind + " handler called without attributable call")
+		return "success", stepOut{Message: "?"}
+	}
+	cls, want := shortArgClass(p, in)
+	s.arrive(p, &event{Ev: "invoke", P: p.id, Kind: kind, Arg: cls, Data: creator(d),
+		dataPtr: asData(d), key: step + "/" + p.call.Run, hstep: step, argText: fmt.Sprintf("%#v", in), wantArg: want})
+	s.record(&event{Ev: "hret", P: p.id})
+	if kind == "signal" {
+		return "", nil
+	}
+	return handlerOutput(p.call.Beh, names[p.call.Input], p.variant)
+}
+
 // rawFor concretises p's raw input (a fresh value on every call) and names the concrete form.
 func rawFor(p *proc) (raw any, form string) {
 	field := "name"
 	if p.call.Kind == "signal" {
 		field = "msg"
+	}
+	if shortSteps[p.call.Step] && p.short != nil {
+		cls := p.call.Input
+		if !validIn[cls] {
+			cls = "inv"
+		}
+		return p.short.raw(names[p.call.Input]), "short/" + p.call.Kind + "/" + cls + "/" + p.short.shape + ":" + p.short.name
 	}
 	if mapSteps[p.call.Step] {
 		f := formOf(p.call.Input, p.variant)
@@ -1090,6 +1377,9 @@ func (r *resT) miss(drift bool, c callT, class string, extra map[string]any, det
 	if mapSteps[c.Step] && inputClasses[class] {
 		sig["scope"] = "map" // the step's input scope is map-based
 	}
+	if shortSteps[c.Step] && inputClasses[class] {
+		sig["scope"] = "single-property" // the step's input object has exactly one property
+	}
 	for k, v := range extra {
 		sig[k] = v
 	}
@@ -1132,7 +1422,7 @@ func judge(s *session, r *resT) int {
 	}
 	det := func(p *proc, more map[string]any) map[string]any {
 		d := map[string]any{"p": p.id, "call": p.call, "variant": p.variant, "form": p.form}
-		if mapSteps[p.call.Step] {
+		if mapSteps[p.call.Step] || shortSteps[p.call.Step] {
 			d["raw"] = fmt.Sprintf("%#v", func() any { r, _ := rawFor(p); return r }())
 		}
 		for k, v := range more {
@@ -1330,6 +1620,14 @@ func runReplay(c caseT, r *resT) {
 		}
 		if mapSteps[cl.Step] != contains(c.MapSteps, cl.Step) {
 			r.BindError = "step " + cl.Step + ": specification's MapSteps " + strings.Join(c.MapSteps, ",") + " differ from the harness's"
+			return
+		}
+		if shortSteps[cl.Step] != contains(c.Shorts, cl.Step) {
+			r.BindError = "step " + cl.Step + ": specification's ShortSteps " + strings.Join(c.Shorts, ",") + " differ from the harness's"
+			return
+		}
+		if cl.Input == "vs" && !shortSteps[cl.Step] {
+			r.BindError = "input class vs is bound for single-property scopes only; call on step " + cl.Step
 			return
 		}
 		if cl.Beh == "okr" && !mapSteps[cl.Step] {
@@ -1593,6 +1891,9 @@ func randomCall(rng *rand.Rand, runs int) callT {
 	if mapSteps[c.Step] && rng.Intn(2) == 0 {
 		c.Input = []string{"vd", "vl", "vl"}[rng.Intn(3)]
 	}
+	if shortSteps[c.Step] && rng.Intn(3) == 0 {
+		c.Input = "vs"
+	}
 	if rng.Intn(100) < 45 {
 		c.Kind = "step"
 		c.Beh = []string{"ok", "ok", "ok", "ok2", "undeclared", "baddata"}[rng.Intn(6)]
@@ -1631,6 +1932,9 @@ func runRandom(c caseT, r *resT) {
 		for i := range calls {
 			// the classes vd / vl are bound for map-based scopes only
 			if (calls[i].Input == "vd" || calls[i].Input == "vl") && !mapSteps[calls[i].Step] {
+				calls[i].Input = "va"
+			}
+			if calls[i].Input == "vs" && !shortSteps[calls[i].Step] {
 				calls[i].Input = "va"
 			}
 			if calls[i].Kind == "step" && mapSteps[calls[i].Step] && calls[i].Beh == "ok" && rng.Intn(2) == 0 {
@@ -1673,6 +1977,9 @@ func runRandom(c caseT, r *resT) {
 			k := cl.Kind + "/" + situation(cl) + "/" + cl.Beh
 			if mapSteps[cl.Step] {
 				k += "/map:" + cl.Input
+			}
+			if shortSteps[cl.Step] {
+				k += "/single:" + cl.Input
 			}
 			keys[k] = true
 		}
@@ -1921,6 +2228,9 @@ func handle(raw json.RawMessage) any {
 		bp = sup.Guard(bindCheck)
 		if bp == nil {
 			bp = sup.Guard(bindCheckMap)
+		}
+		if bp == nil {
+			bp = sup.Guard(bindCheckShort)
 		}
 	})
 	if bp != nil {
